@@ -382,6 +382,100 @@ func corrC17(r *Run) {
 			entryPoints(r, string(text), dcs, d.name+" text")
 		}
 	}
+	// ---- 4c. segment boundaries: control characters / U+007F / U+0080..U+00A0 at every offset around the cut, every
+	// coding whose characters have more than one width; each part is decoded on its own
+	wide := []coding.DataCoding{coding.ShiftJISCoding, coding.EUCJPCoding, coding.EUCKRCoding, coding.ISO2022JPCoding, coding.UCS2Coding}
+	specials := []rune{0x7F, 0x00, 0x0A, 0x1F, 0x7E, 0x20, 0x80, 0x85, 0xA0, 0xFF71, 0x1F48A}
+	for _, dc := range wide {
+		a := alph[dc]
+		var two []rune // characters of two octets
+		enc := dc.Encoding().NewEncoder()
+		for _, x := range a.other {
+			if b, ok := encodeOne(enc, x); ok && (len(b) == 2 || dc == coding.ISO2022JPCoding && len(b) == 8) && x > 0x2000 {
+				two = append(two, x)
+			}
+			if len(two) > 400 {
+				break
+			}
+		}
+		if len(two) == 0 {
+			continue
+		}
+		for _, sp := range specials {
+			if _, ok := encodeOne(enc, sp); !ok {
+				continue
+			}
+			var offsets []int
+			if r.Quick {
+				offsets = []int{58 + r.Rng.Intn(5), 63 + r.Rng.Intn(3), 66, 67, 68 + r.Rng.Intn(4)}
+				if dc == coding.ISO2022JPCoding {
+					offsets = []int{10 + r.Rng.Intn(40), 55 + r.Rng.Intn(12)}
+				}
+			} else {
+				for o := 20; o <= 72; o++ {
+					offsets = append(offsets, o)
+				}
+			}
+			for _, off := range offsets {
+				total := 90 + r.Rng.Intn(60)
+				text := make([]rune, 0, total+2)
+				for k := 0; k < total; k++ {
+					text = append(text, two[r.Rng.Intn(len(two))])
+				}
+				text = append(text[:off], append([]rune{sp}, text[off:]...)...)
+				if r.Rng.Intn(3) == 0 { // a second one further on
+					o2 := off + 1 + r.Rng.Intn(70)
+					if o2 < len(text) {
+						text = append(text[:o2], append([]rune{sp}, text[o2:]...)...)
+					}
+				}
+				s := string(text)
+				checkMultipart(r, s, dc, fmt.Sprintf("%s: %s at a segment boundary", csName(dc), uplus(sp)),
+					fmt.Sprintf("multipart %d %s", byte(dc), hex.EncodeToString([]byte(s))), "")
+			}
+		}
+	}
+	// ---- 4d. histories through the entry points: accepted, rejected as too large / for a rune outside the code, again
+	{
+		kanji := func(n int) string { return strings.Repeat("日本語", (n+2)/3)[:3*n] }
+		jp := coding.ISO2022JPCoding
+		corpus := [][]entryStep{
+			{{jp, "日本"}, {jp, kanji(68)}, {jp, "日本"}},
+			{{jp, "こんにちは"}, {jp, kanji(300)}, {jp, "こんにちは"}, {jp, "abc"}},
+			{{jp, "ｱｲｳ"}, {jp, kanji(69)}, {jp, "ｱｲｳ"}, {jp, "日本Ж"}, {jp, "日本"}},
+			{{coding.ShiftJISCoding, "日本"}, {coding.ShiftJISCoding, kanji(300)}, {coding.ShiftJISCoding, "日本€"}, {coding.ShiftJISCoding, "日本"}},
+			{{coding.EUCKRCoding, "안녕"}, {coding.EUCKRCoding, "안녕Ж\u0100"}, {coding.EUCKRCoding, "안녕"}},
+		}
+		for _, h := range corpus {
+			entryHistory(r, h, "history corpus")
+		}
+		nH := r.N(10, 200)
+		for _, cs := range charsetList {
+			a := alph[cs.dc]
+			for i := 0; i < nH; i++ {
+				short := string(genText(r, a, 20, false))
+				if cs.kind == 3 || cs.kind == 1 { // start on a wide character so that a lost escape sequence shows
+					if len(a.other) > 0 {
+						short = string(a.other[r.Rng.Intn(len(a.other))]) + short
+					}
+				}
+				var long []rune
+				for k, n := 0, 66+r.Rng.Intn(10); k < n && len(a.other) > 0; k++ {
+					long = append(long, a.other[r.Rng.Intn(len(a.other))])
+				}
+				if i%3 == 0 {
+					for len(long) < 200+r.Rng.Intn(200) && len(a.other) > 0 {
+						long = append(long, a.other[r.Rng.Intn(len(a.other))])
+					}
+				}
+				steps := []entryStep{{cs.dc, short}, {cs.dc, string(long)}, {cs.dc, short}}
+				if i%2 == 0 {
+					steps = append(steps, entryStep{cs.dc, string(genText(r, a, 20, true))}, entryStep{cs.dc, short})
+				}
+				entryHistory(r, steps, cs.name+" history")
+			}
+		}
+	}
 	// ---- 5. decoders on random sequences of valid codes (not only encoder images)
 	nSeq := r.N(25, 400)
 	for _, cs := range charsetList {
@@ -490,51 +584,100 @@ func entryPoints(r *Run, s string, dcs []coding.DataCoding, bucket string) {
 		if dc.Encoding() == nil || dc == coding.GSM7BitCoding {
 			continue
 		}
-		in := fmt.Sprintf("multipart %d %s", byte(dc), hx)
-		var parts []pdu.ShortMessage
-		var err error
-		pan, _ := guard(func() { parts, err = pdu.ComposeMultipartShortMessage(s, dc, 0x1234) })
-		r.Count(in, len(s) > 0, bucket+": ComposeMultipartShortMessage")
-		name := csName(dc)
-		if pan {
-			r.Fail("multipart/"+name+"/panic", "ComposeMultipartShortMessage panicked", in, "panic", "parts or an error")
-			continue
-		}
-		_, rejected := firstRejected(dc, s)
-		if err != nil {
-			if !rejected && err != pdu.ErrShortMessageTooLarge && err != pdu.ErrMultipartTooMuch {
-				r.Fail("multipart/"+name+"/rejected-representable-text", "a text the coding can represent was rejected", in, fmt.Sprintf("error %v", err), "parts")
-			}
-			if rejected {
-				r.Case(in, fmt.Sprintf("same_out (encode_dc %d %s) (Err EText)", byte(dc), coqRunes(runes)))
-			}
-			continue
-		}
-		// each part carries a segment; together they must be the text, encoded by the standard
-		var all []byte
-		var back strings.Builder
-		for _, p := range parts {
-			all = append(all, p.Message...)
-			d, _, _ := implDecode(dc, p.Message)
-			back.WriteString(d)
-		}
-		cls, req := "", ""
-		switch {
-		case dc == coding.ISO2022JPCoding:
-			if !strings.ContainsRune(s, 0x1b) && back.String() != s {
-				cls, req = "altered", fmt.Sprintf("parts that decode to %q (or an error)", s)
-			}
-		default:
-			cls, req = conformsText(dc, s, all)
-		}
-		if cls != "" {
-			r.Fail("multipart/"+name+"/"+cls, "ComposeMultipartShortMessage produced octets that are not the coding's encoding of the text",
-				in, fmt.Sprintf("%d parts, octets=%x", len(parts), all), req)
-		}
-		if dc != coding.ISO2022JPCoding || len(parts) == 1 {
-			r.Case(in, fmt.Sprintf("same_out (encode_dc %d %s) (Ok %s)", byte(dc), coqRunes(runes), coqHex(all)))
-		}
+		checkMultipart(r, s, dc, bucket, fmt.Sprintf("multipart %d %s", byte(dc), hx), "")
 	}
+}
+
+// checkMultipart: one ComposeMultipartShortMessage call checked against C17; `in` is the replayable input (for a
+// history: all calls so far), `where` names the step.  Returns a signature of the result (error class or the parts)
+// so that histories can compare repeated calls.
+func checkMultipart(r *Run, s string, dc coding.DataCoding, bucket, in, where string) (sig string) {
+	runes := []rune(s)
+	var parts []pdu.ShortMessage
+	var err error
+	pan, _ := guard(func() { parts, err = pdu.ComposeMultipartShortMessage(s, dc, 0x1234) })
+	r.Count(in, len(s) > 0, bucket+": ComposeMultipartShortMessage")
+	name := csName(dc)
+	if pan {
+		r.Fail("multipart/"+name+"/panic", "ComposeMultipartShortMessage panicked", in, where+"panic", "parts or an error")
+		return "panic"
+	}
+	_, rejected := firstRejected(dc, s)
+	if err != nil {
+		if !rejected && err != pdu.ErrShortMessageTooLarge && err != pdu.ErrMultipartTooMuch {
+			r.Fail("multipart/"+name+"/rejected-representable-text", "a text the coding can represent was rejected", in, fmt.Sprintf("%serror %v", where, err), "parts")
+		}
+		if rejected {
+			r.Case(in+" "+where, fmt.Sprintf("same_out (encode_dc %d %s) (Err EText)", byte(dc), coqRunes(runes)))
+			return "err:text"
+		}
+		return "err:" + err.Error()
+	}
+	// each part carries a segment and is decoded on its own by the receiver; together they must be the text
+	var all []byte
+	var back strings.Builder
+	for _, p := range parts {
+		all = append(all, p.Message...)
+		d, _, _ := implDecode(dc, p.Message)
+		back.WriteString(d)
+		sig += hex.EncodeToString(p.Message) + "|"
+	}
+	cls, req := "", ""
+	if dc != coding.ISO2022JPCoding {
+		cls, req = conformsText(dc, s, all)
+	}
+	outOfScope := (dc == coding.ISO2022JPCoding && strings.ContainsRune(s, 0x1b)) || (csName(dc) == "ascii" && strings.IndexFunc(s, func(x rune) bool { return x > 0x7F }) >= 0)
+	if cls == "" && !outOfScope && back.String() != s {
+		cls, req = "parts-do-not-decode-to-the-text", fmt.Sprintf("parts that decode, each on its own, to %q", s)
+	}
+	if cls != "" {
+		obs := fmt.Sprintf("%s%d parts:", where, len(parts))
+		for _, p := range parts {
+			d, _, _ := implDecode(dc, p.Message)
+			obs += fmt.Sprintf(" [%x -> %q]", p.Message, d)
+			if len(obs) > 700 {
+				obs += " ..."
+				break
+			}
+		}
+		r.Fail("multipart/"+name+"/"+cls, "ComposeMultipartShortMessage produced parts that are not the coding's encoding of the text", in, obs, req)
+	}
+	if dc != coding.ISO2022JPCoding || len(parts) == 1 {
+		r.Case(in+" "+where, fmt.Sprintf("same_out (encode_dc %d %s) (Ok %s)", byte(dc), coqRunes(runes), coqHex(all)))
+	}
+	return
+}
+
+// entryHistory: a sequence of calls through the encoding entry points in one process - accepted texts, texts rejected as
+// too large or for a rune outside the code, the same text again.  Every call is checked as if it were the first
+// (the model encodes from the initial state), and a repeated call must give what it gave before.
+type entryStep struct {
+	dc   coding.DataCoding
+	text string
+}
+
+func entryHistory(r *Run, steps []entryStep, bucket string) {
+	in := "multipart-history"
+	seen := map[string]string{}
+	for k, st := range steps {
+		in += fmt.Sprintf(" %d:%s", byte(st.dc), hex.EncodeToString([]byte(st.text)))
+		where := fmt.Sprintf("call %d of %d (data_coding %d, %q): ", k+1, len(steps), byte(st.dc), clip(st.text, 24))
+		sig := checkMultipart(r, st.text, st.dc, bucket, in, where)
+		key := fmt.Sprintf("%d:%s", byte(st.dc), st.text)
+		if old, ok := seen[key]; ok && old != sig {
+			r.Fail("multipart-history/"+csName(st.dc)+"/result-depends-on-earlier-calls", "the same call gives a different result after other calls",
+				in, where+clip(sig, 300), "the earlier result "+clip(old, 300))
+		}
+		seen[key] = sig
+	}
+}
+
+func clip(s string, n int) string {
+	rs := []rune(s)
+	if len(rs) <= n {
+		return s
+	}
+	return string(rs[:n]) + "…"
 }
 
 func csName(c coding.DataCoding) string {
